@@ -1,6 +1,7 @@
 package main
 
 import (
+	"crypto/sha256"
 	"fmt"
 	"strings"
 
@@ -354,6 +355,49 @@ func checkC04(e *Env) {
 		}
 	})
 
+	// a long-lived process: thousands of derivations whose results the caller keeps; at the end
+	// every kept seed must still read as it did when it was returned (a pool or arena of result
+	// buffers that wraps hands the same memory out twice), and every 16th is compared with the
+	// reference
+	longRuns, longN := e.pick(1, 3), e.pick(1400, 20000)
+	parallel(longRuns, e.Workers, func(h int) {
+		r := rng.New(e.Seed, "C04-long-"+itoa(h))
+		var ops []plan.Op
+		for i := 0; i < longN; i++ {
+			ops = append(ops, plan.Op{I: i, Fn: "seed", S: hxs("m" + itoa(i) + "\u00e9"), P: hxs([]string{"", "p", "\uff50" + itoa(r.Intn(1000))}[i%3]), Keep: true})
+		}
+		ops = append(ops, plan.Op{I: len(ops), Fn: "keepdump"})
+		res, died := e.RunProc(drv, ops, nil, 0)
+		if died != "" || len(res) != len(ops) {
+			e.Violate(&Violation{What: fmt.Sprintf("MnemonicToSeed killed the process in a run of %d derivations: %s", longN, oneLine(died, 300)), Ops: ops[:min(len(res)+1, len(ops))]})
+			return
+		}
+		for _, inf := range res[len(res)-1].Info {
+			k := strings.IndexByte(inf, ':')
+			var i int
+			if k < 0 || strings.HasPrefix(inf, "buf") || strings.HasPrefix(inf, "err") {
+				continue
+			}
+			if n, _ := fmt.Sscanf(inf[:k], "%d", &i); n != 1 || i < 0 || i >= longN || res[i].Panic != "" {
+				continue
+			}
+			stat.Inc("seeds_kept_and_read_again_at_the_end_of_a_long_run")
+			d := sha256.Sum256(unhex(res[i].Out))
+			if hx(d[:]) != inf[k+1:] {
+				e.Violate(&Violation{What: fmt.Sprintf("the seed returned by derivation %d of %d in one process reads differently at the end of the process: a later call wrote into it, the returned slice was not fresh", i, longN),
+					Ops: ops, Observed: res[i], Detail: "the child keeps every returned seed and digests it again after the last call"})
+				return
+			}
+		}
+		for i := 0; i < longN; i += 16 {
+			if want, ok := e.RefSeed(ops[i].Str(), ops[i].Pass()); ok && res[i].Panic == "" && res[i].Out != hx(want) {
+				e.Violate(&Violation{What: fmt.Sprintf("derivation %d of a long run in one process: MnemonicToSeed(%s, %s) = %s, expected %x", i, preview(ops[i].Str()), preview(ops[i].Pass()), res[i].Out, want),
+					Ops: ops[:i+1], Expected: map[string]string{"out_hex": hx(want)}, Observed: res[i], Detail: "the failing call is the last of ops; the preceding ones are its history"})
+				return
+			}
+		}
+	})
+
 	// identity is not equality: the mnemonic of one derivation becomes garbage and another
 	// mnemonic of the same byte length takes over its address
 	reusePairs, reuseHits := e.addressReuse(drv, "C04", e.pick(3, 16), 40, func(r *rng.R, k int) (plan.Op, plan.Op, bool) {
@@ -408,7 +452,7 @@ func checkC04(e *Env) {
 		"evaluations":                      stats.Ops,
 		"distinct_nontrivial":              dist.Len(),
 		"calls_repeated_under_concurrency": concCalls,
-		"rule":                             "a case is a pair (mnemonic, passphrase) of valid-UTF-8 strings over CPython-assigned code points with non-starter runs <= 25: empty/ASCII, valid and invalid mnemonics of all ten languages, lengths around and far beyond the 128-byte HMAC block for either argument, NFC/NFD/NFKC/NFKD spellings, compatibility characters, mark sequences in non-canonical order, arguments beginning with combining marks, Hangul syllables/jamo, seeded random strings (80 % decomposing or combining code points); every case is compared with PBKDF2 written out over crypto/hmac with CPython's NFKD; histories in one process (identical arguments, almost identical ones, the same concatenation split at another place between mnemonic and passphrase; half of the histories also hold failing and succeeding calls of the other functions in between); one case in eight also observes freshness (two calls, second result clobbered, first re-read, backing arrays compared); distinct = distinct (mnemonic, passphrase)",
+		"rule":                             "a case is a pair (mnemonic, passphrase) of valid-UTF-8 strings over CPython-assigned code points with non-starter runs <= 25: empty/ASCII, valid and invalid mnemonics of all ten languages, lengths around and far beyond the 128-byte HMAC block for either argument, NFC/NFD/NFKC/NFKD spellings, compatibility characters, mark sequences in non-canonical order, arguments beginning with combining marks, Hangul syllables/jamo, seeded random strings (80 % decomposing or combining code points); every case is compared with PBKDF2 written out over crypto/hmac with CPython's NFKD; histories in one process (identical arguments, almost identical ones, the same concatenation split at another place between mnemonic and passphrase; half of the histories also hold failing and succeeding calls of the other functions in between); one case in eight also observes freshness (two calls, second result clobbered, first re-read, backing arrays compared); one long-lived process of 1400 (thorough 3 x 20000) derivations whose kept results are all read again at the end; distinct = distinct (mnemonic, passphrase)",
 		"samples":                          smp.List(),
 		"cases_by_class":                   classes.Map(),
 		"observations":                     stat.Map(),
